@@ -442,7 +442,7 @@ func oracles(r *h.Run, p Program, ci int, s step, strict bool) (stop bool) {
 			return true
 		}
 		// mkdir -p: MkDir succeeds whenever the directory exists afterwards (also when the back end's MkdirAll reported an error)
-		if c.Op == "mkdir" && c.MkdirRace != "" && s.res[i].Err != "" && !s.res[i].Hung && !unconstrained(c, s.before[i]) {
+		if c.Op == "mkdir" && c.MkdirRace != "" && c.FaultAt == 0 && c.CancelAt == 0 && s.res[i].Err != "" && !s.res[i].Hung && !unconstrained(c, s.before[i]) {
 			if e, ok := s.after[i].Lookup(parseArg(c.P).path()); ok && e.Dir {
 				r.Fail("mkdir-p-not-tolerant:"+c.MkdirRace+":"+bn, fmt.Sprintf("%s returned %s on the %s back end although the directory exists afterwards", c, s.res[i], bn), replay)
 			}
